@@ -1115,3 +1115,77 @@ def parse_kernel(ctx):
             except Exception: got = 'unparsable:' + out
             if r['rc'] != 0 or b'panicked' in r['stderr'] or not jsame(got, exp):
                 c.replay = {'argv': ['--select', expr + '=r'], 'stdin': '{}', 'expected': exp, 'actual': got, 'rc': r['rc']}; c.status = 'reproduced'; break
+
+
+# ---------------------------------------------------------------- binding forms: (set n v e), (define n m e)
+def binding_forms(ctx):
+    """(set n v e) evaluates e in exactly `ctx.with_variable(n, v)` with v the value of the second argument in ctx; (define n m e)
+    evaluates e in exactly `ctx.with_definition(n, m)` with m *the second argument itself* (the getter the caller wrote, not a
+    wrapper around it - a wrapper could re-bind, cache or capture). Nothing for a name that is not a string / an absent value.
+    What the derived context contains is context.derive."""
+    run = ctx.run
+    fam = run.family('bind.forms', '(set n v e) / (define n m e) evaluate e once, in the context derived from the current one by binding n to the value of v / to the getter m itself, and return its answer; nothing when the name is not a string (or the value is absent)')
+    run.bounds['bind forms'] = 'name: a string / a number / nothing; value: a value / nothing; body answer: a value / nothing'
+    inl = conversions(ctx)
+    allc = []
+    for form, meth in (('set', 'with_variable'), ('define', 'with_definition')):
+        for nameshape in ('string', 'number', 'nothing'):
+            for valshape in ('value', 'nothing'):
+                for body in ('value', 'nothing'):
+                    def s_with(ex, st, func, a, ty, meth=meth):
+                        arg2 = obj(st, a[2])
+                        st.events.append(('derive', func.rsplit('::', 1)[1], origin(st, a[0]), origin(st, a[1]), origin(st, arg2)))
+                        return [(st, named(st, 'DERIVED', 'Context'))]
+                    def s_apply(ex, st, func, a, ty, nameshape=nameshape, valshape=valshape, body=body):
+                        idx = cval(a[2].t); c = origin(st, a[1]); st.events.append(('apply', idx, c))
+                        if idx == 0:
+                            if nameshape == 'nothing': return [(st, none(st))]
+                            if nameshape == 'string': return [(st, some(st, jv(st, ex, 'String', named(st, 'NAME', 'String'))))]
+                            return [(st, some(st, jv(st, ex, 'Number', named(st, 'NUM', 'NumberValue'))))]
+                        if idx == 1: return [(st, none(st) if valshape == 'nothing' else some(st, named(st, 'VALUE', 'JsonValue')))]
+                        return [(st, none(st) if body == 'nothing' else some(st, named(st, 'ANSWER(' + c + ')', 'JsonValue')))]
+                    def s_vec_get_(ex, st, func, a, ty):
+                        m_ = model(st, a[0]); i = cval(a[1].t)
+                        return [(st, some(st, slot(st, m_[i])) if i is not None and i < len(m_) else none(st))]
+                    summ = [(r'Arguments>::apply$', s_apply), (r'Context::with_variable$|Context::with_definition$', s_with), (r'impl \[.*\]>::get::<usize>$|Vec::<.*>::get::<usize>$', s_vec_get_),
+                            (r'as Deref>::deref$', s_identity), (r'as Clone>::clone$', s_clone_shared)] + extra_summaries()
+                    ex = ctx.exec(summaries=summ, inline=inl, max_visits=20)
+                    F = ex.find(body_of('variables/' + form))
+                    st = State(); so = named(st, 'self', 'Impl'); selfref = slot(st, so, 'self*'); c = slot(st, named(st, 'CTX', 'Context'), 'ctx*')
+                    st.heap[so.oid][('f', None, 0)] = seqobj(st, 'Vec', [named(st, f'G{i}', 'Rc<dyn Get>') for i in range(3)], origin='self.0')
+                    PANICS.clear(); ex.new_frame(st, F, [selfref, c]); done = ex.run(st) + list(PANICS); PANICS.clear()
+                    for d in done:
+                        run.paths += 1
+                        if d.status == 'infeasible': continue
+                        fam.obligations += 1; fam.paths += 1; fam.witnesses += 1
+                        hav = (d.havoc or [None])[0]; why = None
+                        if d.status != 'returned': why = f'{d.status} {d.notes[-1:]}'
+                        else:
+                            r = obj(d, d.ret); rd = cval(ex.discr(d, r).t)
+                            got = origin(d, d.heap[r.oid][('f', 'Some', 0)]) if rd == 1 else None
+                            der = [e for e in d.events if e[0] == 'derive']; bodyev = [e for e in d.events if e[0] == 'apply' and e[1] == 2]
+                            valid = nameshape == 'string' and (form == 'define' or valshape == 'value')
+                            if not valid:
+                                if got is not None or bodyev: why = f'answers {got} / evaluates the body although the {"name is not a string" if nameshape != "string" else "value is absent"}'
+                            else:
+                                want2 = 'VALUE' if form == 'set' else 'G1'
+                                if len(der) != 1 or der[0][1] != meth or der[0][2] != 'CTX' or der[0][3] != 'NAME' or der[0][4] != want2:
+                                    why = f'the body context is not CTX.{meth}(NAME, {"the value" if form == "set" else "the second argument itself"}): {[(e[1], e[2], e[3], e[4]) for e in der]}'
+                                elif len(bodyev) != 1 or bodyev[0][2] != 'DERIVED': why = f'the body is not evaluated exactly once in the derived context: {[e[2] for e in bodyev]}'
+                                elif got != (None if body == 'nothing' else 'ANSWER(DERIVED)'): why = f'returns {got}, the body answered {"nothing" if body == "nothing" else "ANSWER(DERIVED)"}'
+                        if why is None: fam.discharged += 1
+                        elif not any(x.role == form for x in fam.candidates):
+                            cd = Candidate(fam.name, form, f'({form} <{nameshape}> <{valshape}> body): {why}', {'form': form}, unmodelled=hav); fam.candidates.append(cd); allc.append(cd)
+                    run.absorb(ex)
+    if fam.discharged: fam.add_sample({'call': '(define NAME G1 body)', 'events': 'CTX.with_definition(NAME, G1); body evaluated in DERIVED', 'verdict': 'as documented'})
+    from .cli import run_driver, show as shw
+    DEMOS = [('(set "k" 1 (define "f" (+ . :k) (set "k" 10 (map . @f))))', '[1,2,3]', [11, 12, 13]), ('(define "f" (+ . 1) (map . @f))', '[1,2]', [2, 3]), ('(set "x" 2 (* :x .))', '4', 8), ('(set "x" 1 (set "x" 2 :x))', '0', 2),
+             ('(define "f" 1 (define "f" 2 @f))', '0', 2), ('(set 1 2 3)', '0', 'nothing'), ('(set "x" .nope 3)', '{}', 'nothing'), ('(define "m" (+ :v 1) (set "v" 5 @m))', '0', 6)]
+    for c in allc:
+        c.status = 'unit'
+        for expr, stdin, exp in DEMOS:
+            r = run_driver(ctx, ['--select', expr + '=r', '--style', 'consise'], stdin.encode())
+            try: got = json.loads(shw(r['stdout'])).get('r', 'nothing')
+            except Exception: got = 'unparsable:' + shw(r['stdout'])
+            if r['result'] != 'ok' or not jsame(got, exp):
+                c.status = 'reproduced'; c.unmodelled = None; c.replay = {'argv': ['--select', expr + '=r'], 'stdin': stdin, 'expected': exp, 'actual': got}; break
